@@ -1728,7 +1728,7 @@ def slice_span(e, depth=0):
     if depth > 12 or not isinstance(e, tuple):
         return (e, ({}, 0), None)
     e = canon(e)
-    if e[0] == "call" and len(e[2]) >= 1 and re.search(r"::(to_vec|to_owned|as_slice|as_ref|deref|borrow|clone|into_vec|as_mut_slice|deref_mut)$", short(e[1])) and len(e[2]) == 1:
+    if e[0] == "call" and len(e[2]) >= 1 and re.search(r"::(to_vec|to_owned|as_slice|as_ref|deref|borrow|clone|into_vec|as_mut_slice|deref_mut|try_into|try_from|into|from)$", short(e[1])) and len(e[2]) == 1:
         return slice_span(e[2][0], depth + 1)
     if e[0] == "field" and e[2] in ("0", "1") and isinstance(e[1], tuple) and e[1][0] == "call" and re.search(r"::split_at(_mut)?$", short(e[1][1])) and len(e[1][2]) == 2:
         base, s0, e0 = slice_span(e[1][2][0], depth + 1)
